@@ -343,9 +343,6 @@ func (a *BitAnalyzer) bits(v ssa.Value, w int) BitVec {
 		}
 		return a.opaque(v)
 	case *ssa.Call:
-		if r := a.inlineCall(x, w); r != nil {
-			return r
-		}
 		// a pure integer helper applied to constants is the constant it folds to
 		if callee := x.Call.StaticCallee(); callee != nil && len(x.Call.Args) > 0 {
 			var ks []int64
@@ -362,6 +359,9 @@ func (a *BitAnalyzer) bits(v ssa.Value, w int) BitVec {
 					return constBits(uint64(k), w)
 				}
 			}
+		}
+		if r := a.inlineCall(x, w); r != nil {
+			return r
 		}
 		return a.opaque(v)
 	}
